@@ -20,7 +20,9 @@ mimetype.assign = (".txt" => "text/plain", ".json" => "application/json", ".bin"
 '''
 VARIANTS = [dict(name="default-cache", allowed='"gzip", "deflate"', masks="3,4", mn=256, mx=0, cache=True),
             dict(name="deflate-first-nocache", allowed='"deflate", "gzip"', masks="4,3", mn=0, mx=1024, cache=False),
-            dict(name="gzip-only-cache", allowed='"gzip"', masks="3", mn=1000, mx=4096, cache=True)]
+            dict(name="gzip-only-cache", allowed='"gzip"', masks="3", mn=1000, mx=4096, cache=True),
+            # another module has already set a Vary header when mod_deflate runs: Accept-Encoding must be added to it
+            dict(name="vary-present", allowed='"gzip", "deflate"', masks="3,4", mn=256, mx=0, cache=False, vary=True)]
 AE = [None, b"gzip", b"deflate", b"gzip, deflate", b"deflate, gzip", b"x-gzip", b"br, zstd", b"identity", b"*", b"gzip;q=1.0, deflate;q=0.5", b"deflate;q=1,gzip",
       b" gzip ,,deflate", b"GZIP", b"gzipx", b"compress, gzip", b"br;q=1.0, gzip;q=0.8, *;q=0.1", b"", b"x-gzip, deflate", b"gzip ; q=0"]
 PAT = H1.pattern(2300000)
@@ -88,7 +90,8 @@ MIME = {".txt": b"text/plain", ".json": b"application/json", ".bin": b"applicati
 def run_variant(ctx, v, nops, model, sanitize=False):
     rng = ctx.rng.__class__(ctx.rng.random())
     files = {p: content(k, n, 0) for p, k, n in FILES}
-    s = srv.Server(ctx, v["name"], "", files=files, modules=["mod_deflate"], sanitize=sanitize)
+    s = srv.Server(ctx, v["name"], 'setenv.add-response-header = ("Vary" => "Origin")\n' if v.get("vary") else "", files=files,
+                   modules=(["mod_setenv"] if v.get("vary") else []) + ["mod_deflate"], sanitize=sanitize)
     cache_dir = os.path.join(s.root, "zcache"); os.makedirs(cache_dir, exist_ok=True)
     with open(s.conf, "a") as f:
         f.write(CONF % (v["allowed"], v["mn"], v["mx"], ('deflate.cache-dir = "%s"' % cache_dir) if v["cache"] else ""))
@@ -195,7 +198,7 @@ def run(ctx):
                         dict(kind="correspondence", correspondence="Deflate.DeflateModel.decide vs mod_deflate_handle_response_start", variant=v["name"], observed=e, model=m), no_input=True)
             found = True
     ctx.cov["evaluations"] += total; ctx.cov["distinct_nontrivial"] += coded
-    ctx.cov["rule"] = ("3 configurations (allowed-encodings order, min/max sizes, cache directory on/off) x 12 files (100 B .. 2 MiB+4321 B, text / incompressible / zeros, sizes around "
+    ctx.cov["rule"] = ("4 configurations (allowed-encodings order, min/max sizes, cache directory on/off, a Vary header already set by mod_setenv) x 12 files (100 B .. 2 MiB+4321 B, text / incompressible / zeros, sizes around "
                        "32 KiB, min-compress-size and the 2 MiB read block) x 19 Accept-Encoding values (q-values, x-gzip, unknown codings, odd spacing, upper case) x GET/HEAD x "
                        "If-None-Match with the coded tag, in histories that replace source files (new content, sometimes new size), with 20 % short writes / ENOSPC on cache "
                        "files and SIGKILL during a 2 MiB compression followed by restart on the same cache directory; non-trivial = coded responses decoded and compared")
